@@ -320,6 +320,10 @@ func (g Gap) Center() float64 {
 
 // findVerticalGaps finds significant vertical whitespace gaps using density analysis
 // This approach handles documents with spanning headers/titles that cross column boundaries
+// maxHistogramWidth is the widest page (in points) the gap histogram is built
+// for: 200 inches is the largest page size PDF viewers support.
+const maxHistogramWidth = 14400.0
+
 func (d *ColumnDetector) findVerticalGaps(fragments []text.TextFragment, pageWidth, pageHeight float64) []Gap {
 	if len(fragments) == 0 {
 		return nil
@@ -328,6 +332,17 @@ func (d *ColumnDetector) findVerticalGaps(fragments []text.TextFragment, pageWid
 	// Build histogram of fragment density across X axis
 	// Use 5-point buckets for good resolution
 	bucketSize := 5.0
+	// The page width comes from the file's MediaBox. The histogram only has to
+	// cover the text, so a width that is negative, not a number or far beyond
+	// any real page is replaced by the extent of the fragments.
+	if !(pageWidth >= 0 && pageWidth <= maxHistogramWidth) {
+		pageWidth = 0
+		for _, f := range fragments {
+			if right := f.X + f.Width; right > pageWidth && right <= maxHistogramWidth {
+				pageWidth = right
+			}
+		}
+	}
 	numBuckets := int(pageWidth/bucketSize) + 1
 	histogram := make([]int, numBuckets)
 
